@@ -529,7 +529,7 @@ static void execute(const Plan &p) {
 	if (!stop() && !G.capped) {
 		for (int s = 0; s < vk::S_NSITES; s++) vk::set_fault((vk::Site)s, 0);
 		for (int round = 0; round < 3 && !stop(); round++) {
-			for (int k = 0; k < 200 && !stop() && !G.capped; k++) {
+			for (int k = 0; k < 100000 && !stop() && !G.capped; k++) {	// byte-wise delivery through a 64-byte socket buffer takes thousands of steps
 				run.stalled = false;
 				int r = event_base_loop(run.base, EVLOOP_NONBLOCK);
 				if (r < 0) break;
@@ -547,6 +547,7 @@ static void execute(const Plan &p) {
 			// reaches the callback
 			bool deliverable = q.decodable && !q.odd && !q.qr && !q.bounds && q.opcode == 0 && !q.questions.empty() && !run.ports_closed && !run.limited_clients && !run.faulty_io;
 			if (deliverable && q.tcp) deliverable = q.conn_epoch == run.cl[q.client].conn_epoch && run.cl[q.client].tcp_open && !run.cl[q.client].stream_dead;
+			if (deliverable && q.callbacks == 0 && vk::events_pending()) { probe("settle-budget-exhausted"); continue; }	// the network has not delivered everything yet: no verdict
 			if (deliverable && q.callbacks == 0) { V("C37", "C37.query-not-delivered", "query %zu (%s, %zu bytes, %zu question(s)) is a well-formed standard query and its %s is still up, yet the user callback never ran for it", i, q.tcp ? "tcp" : "udp", q.bytes.size(), q.questions.size(), q.tcp ? "connection" : "port"); break; }
 			if ((q.qr || q.bounds) && q.callbacks) { V("C37", "C37.callback-for-invalid", "query %zu (%s) is %s, yet the user callback ran", i, hexs(q.bytes).c_str(), q.qr ? "a response" : "cut short / reaching outside the packet"); break; }
 		}
